@@ -202,6 +202,7 @@ Definition c11_clean (c : c11_case) : Prop :=
       Forall (sop_ok (sim_of e)) (map fst steps) /\ Forall not_panic (map snd steps)
   | KBigBatch _ _ _ _ _ _ => True
   | KWrapFault _ _ _ _ => True
+  | KSnapshot _ _ _ _ _ _ _ _ => True
   end.
 
 Lemma combine_fst_snd {X Y} (l : list (X * Y)) : combine (map fst l) (map snd l) = l.
@@ -209,8 +210,8 @@ Proof. induction l as [|[a b] t IH]; [reflexivity|]. cbn. rewrite IH. reflexivit
 
 Lemma c11_oracle_sound c : c11_clean c -> c11_check c = true -> c11_oracle c = None.
 Proof.
-  destruct c as [e steps final|e n keylen failing cl visible|kind inj obs intact]; cbn [c11_clean c11_check c11_oracle];
-    [| |intros _ H; rewrite H; reflexivity].
+  destruct c as [e steps final|e n keylen failing cl visible|kind inj obs intact|e n fw bf mi ex io ap];
+    cbn [c11_clean c11_check c11_oracle]; [| |intros _ H; rewrite H; reflexivity|intros _ H; rewrite H; reflexivity].
   - intros [Hok Hnp] Hc.
     destruct (a_run (adapter_of e) (a_init (adapter_of e)) None (map fst steps)) as [sf obs] eqn:Er.
     apply andb_true_iff in Hc as [Ho Hf].
